@@ -288,8 +288,14 @@ fn cross_check_world_b(scn: &DebugScenario, base: &crate::world_a::Outcome, repo
             args.push("stack".into());
         }
         if let Some(arg) = &d.arg {
-            args.push("--command".into());
-            args.push(arg.into());
+            // A value starting with `-` has to be attached with `=`, like any option value on a
+            // command line (shell-level syntax, not part of the command language)
+            if arg.starts_with('-') || sep_seed & 4 != 0 {
+                args.push(format!("--command={}", arg).into());
+            } else {
+                args.push("--command".into());
+                args.push(arg.into());
+            }
         }
         let p = run_lace(
             &scratch,
